@@ -1,6 +1,7 @@
 package main
 
 import (
+	"encoding/json"
 	"errors"
 	"fmt"
 	"hash/fnv"
@@ -62,6 +63,13 @@ func filterFunc(name string, rec *recorder) func(interface{}) (interface{}, erro
 		"wrap": func(v interface{}) (interface{}, error) { return []interface{}{v}, nil },
 		"tn":   func(v interface{}) (interface{}, error) { return goTypeName(v), nil },
 		"fail": func(v interface{}) (interface{}, error) { return nil, errLib },
+		// a user function that itself uses the library and hands the error it got back unchanged
+		"relay": func(v interface{}) (interface{}, error) {
+			inner := jsonpath.Config{}
+			inner.SetFilterFunction("fail", func(interface{}) (interface{}, error) { return nil, errLib })
+			_, err := jsonpath.Retrieve("$.x.fail()", map[string]interface{}{"x": 1.0}, inner)
+			return nil, err
+		},
 		"fstr": func(v interface{}) (interface{}, error) {
 			if _, ok := v.(string); ok {
 				return nil, errLib
@@ -429,7 +437,7 @@ func locations(c *caseT, docIdx int, n int, rec *recorder) string {
 				}
 			}
 			// Set stores whatever value it is given at that location — nil, a scalar, a container — and nothing else changes
-			for _, v := range []interface{}{nil, true, map[string]interface{}{"s": 1.0}, []interface{}{"s"}, ""} {
+			for _, v := range []interface{}{nil, true, map[string]interface{}{"s": 1.0}, map[string]interface{}{"t": 2.0}, []interface{}{"s"}, []interface{}{"t", "u"}, "", 2.5, 7, json.Number("2.5"), 2.5} {
 				if found[0] == "" {
 					break
 				}
